@@ -248,12 +248,18 @@ SelDefault == [errs |-> {""}, which |-> "", probes |-> <<>>, segs |-> <<>>, snvs
 SelErrs(es) == [SelDefault EXCEPT !.errs = es]
 GeneSetOfSeq(gs) == {<<gs[k][1], gs[k][2], Range(gs[k][3])>> : k \in 1..Len(gs)}
 Prune(x, chrom, hw, lo, hi, geneset) ==          \* "Prune plotted elements to the selected region"
-    LET q == QWin(chrom, hw, lo, hi) IN
+    LET q == QWin(chrom, hw, lo, hi)
+        (* in_range as the code selects: rows with end > lo and start < hi (this keeps a zero-width by-bin segment that  *)
+        (* Ranges!Want, which speaks of shared bases, does not), clipped for "trim"; without a window the chromosome's rows *)
+        Sel(t, qq) == SelectSeq(t, LAMBDA row : C(row) = qq.c /\ E(row) > qq.s /\ S(row) < qq.e)
+        InR(t, mode, qq) == IF ~hw THEN OnChrom(t, chrom)
+                            ELSE IF mode = "trim" THEN [k \in Idx(Sel(t, qq)) |-> Clipped(Sel(t, qq)[k], qq)] ELSE Sel(t, qq)
+    IN
     [SelDefault EXCEPT !.which = "chrom", !.mb1 = x.bybin, !.hw = hw, !.wlo = IF hw THEN lo ELSE 0, !.whi = IF hw THEN hi ELSE 0,
                        !.geneset = geneset, !.chrom = chrom,
-                       !.probes = IF x.tb THEN Want(x.a, "outer", q) ELSE <<>>,
-                       !.segs = IF x.tsg THEN Want(x.sg, "trim", q) ELSE <<>>,
-                       !.snvs = IF x.tv THEN Want(x.va, "outer", QWin(chrom, hw, 840 * lo, 840 * hi)) ELSE <<>>]
+                       !.probes = IF x.tb THEN InR(x.a, "outer", q) ELSE <<>>,
+                       !.segs = IF x.tsg THEN InR(x.sg, "trim", q) ELSE <<>>,
+                       !.snvs = IF x.tv THEN InR(x.va, "outer", QWin(chrom, hw, 840 * lo, 840 * hi)) ELSE <<>>]
 GeneStage(x, coords, start, end) ==
     LET reg == x.reg  rchrom == IF reg.hc THEN reg.c ELSE 0 IN
     IF ~x.hg
@@ -474,8 +480,8 @@ PdClauses(op) ==
       [] op = "seg_color"      -> {"sc_no_call_info", "sc_autosome_cna", "sc_autosome_neutral"}
       [] op = "seg_vafs"       -> {"sv_noerr", "sv_value_in_group"}
       [] op = "genome_layout"  -> {"gl_noerr", "gl_bins_in_own_slot"}
-      [] op = "diagram"        -> {"dg_needs_input", "dg_range_rejected", "dg_chrom_only", "dg_labels_threshold", "dg_no_labels",
-                                   "dg_sides"}
+      [] op = "diagram"        -> {"dg_needs_input", "dg_range_rejected", "dg_chrom_only", "dg_labels_threshold", "dg_qualifying_labelled",
+                                   "dg_no_labels", "dg_sides"}
       [] op = "heatmap"        -> {"hm_noerr", "hm_samples_in_order", "hm_cells_faithful", "hm_slots_disjoint",
                                    "hm_bybin_needs_cnr"}
       [] OTHER                 -> {}
@@ -734,6 +740,17 @@ PdHolds(c, r) ==
                       /\ \E row \in Range(r.sg) : G(row) = f[5] /\ AbsI(X(row)) >= r.thr8 /\ P6(row) >= r.minp
                  ELSE \E kr \in Range(r.km) : kr[1] = f[5] /\ kr[2] >= r.minp
             /\ \A j, k \in 1..Len(r.feats) : (j # k /\ r.feats[j][5] # <<>>) => r.feats[j][5] # r.feats[k][5]
+    (* ... and every gene that reaches both thresholds is labelled (once), provided one of its rows is drawn at all  *)
+    (* (rows starting at 0 are skipped by the code's "sanity check" -- A-layer)                                      *)
+      [] c = "dg_qualifying_labelled" -> (Ok(r) /\ r.labels) =>
+            LET shown == IF r.rk = "chrom" THEN {r.rc} ELSE 1..1000
+                lab == {r.feats[k][5] : k \in 1..Len(r.feats)}
+            IN IF DgIsSeg(r)
+               THEN \A row \in Range(r.sg) :
+                       (C(row) \in shown /\ AbsI(X(row)) >= r.thr8 /\ P6(row) >= r.minp /\ ~WholeIn(G(row), IgnoreNames)
+                        /\ \E y \in Range(r.sg) : C(y) \in shown /\ G(y) = G(row) /\ S(y) >= 1) => G(row) \in lab
+               ELSE \A kr \in Range(r.km) :
+                       (kr[2] >= r.minp /\ \E y \in Range(r.sq) : G(y) = kr[1] /\ S(y) >= 1) => kr[1] \in lab
     (* --no-gene-labels: "Disable gene_name labels on plot" *)
       [] c = "dg_no_labels" -> (Ok(r) /\ ~r.labels) => \A k \in 1..Len(r.feats) : r.feats[k][5] = <<>>
     (* "If both the bin-level log2 ratios and segmentation calls are given, show them side-by-side on each chromosome
